@@ -26,6 +26,7 @@ func ledgerPlan(o LedgerGenOpts) func(p *PRNG, cfg Config, tier string) Plan {
 		oo.MultiOperatorMsgs = o.MultiOperatorMsgs && p.Chance(1, 2)
 		oo.BigAmounts = o.BigAmounts && p.Chance(1, 3)
 		oo.DirectSlashes = o.DirectSlashes && p.Chance(1, 2)
+		oo.SecondHolder = o.SecondHolder && p.Chance(1, 2)
 		plan := GenLedgerPlan(p, cfg, oo)
 		if oo.DirectSlashes {
 			factors := []string{"0.01", "0.05", "0.3", "0.5", "1"}
@@ -45,6 +46,21 @@ func ledgerPlan(o LedgerGenOpts) func(p *PRNG, cfg Config, tier string) Plan {
 			plan.Blocks[b1+1].DtNs = dogfoodEpochSecs(cfg)*1e9 + 1e9
 			d1 := 1 + p.Intn(ConsKeyPool-1)
 			plan.Blocks[b2].Ops = append(plan.Blocks[b2].Ops, Op{K: "setkey", A: x, D: d1}, Op{K: "setkey", A: x, D: 0}, Op{K: "setkey", A: x, D: 1 + (d1+p.Intn(ConsKeyPool-2))%(ConsKeyPool-1)})
+		}
+		if oo.SecondHolder {
+			for bi := range plan.Blocks {
+				if p.Chance(1, 6) {
+					plan.Blocks[bi].Ops = append(plan.Blocks[bi].Ops, Op{K: "hold", N: int64(p.Intn(1 << 16))})
+					if p.Chance(1, 3) {
+						plan.Blocks[bi].Ops = append(plan.Blocks[bi].Ops, Op{K: "hold", N: int64(p.Intn(1 << 16))})
+					}
+				}
+				if p.Chance(1, 5) {
+					plan.Blocks[bi].Ops = append(plan.Blocks[bi].Ops, Op{K: "unhold", N: int64(p.Intn(1 << 16))})
+				}
+			}
+			// the second holder lets go of everything before the fault-free epilogue
+			plan.Blocks = append(plan.Blocks, Block{DtNs: 1e9, Ops: []Op{{K: "unhold", M: 1}}})
 		}
 		nst := -1
 		for i, a := range cfg.Assets {
@@ -113,11 +129,11 @@ func init() {
 	})
 	Register(&PropSpec{
 		ID: "C03", Level: "exploration",
-		Rule: "C01 workload biased to undelegation bursts (same block, equal lz nonces, several operators per native message, operators in every lifecycle state) with epoch jumps, slashing while pending and restarts; record-set model: one record per accepted undelegation leg, nothing lost/overwritten, release exactly in the EndBlock of the first height >= completion height with hold 0 (holds released by the dogfood pending list of that block), credit == recorded payout, aggregates == sum of live records, acceptance of any amount within the position; non-trivial = >=2 records alive at once AND >=1 record released AND >=1 record held at its completion height",
+		Rule: "C01 workload biased to undelegation bursts (same block, equal lz nonces, several operators per native message, operators in every lifecycle state) with epoch jumps, slashing while pending, restarts and (in half of the runs) a second holder that places and lifts additional holds on pending records through the delegation keeper's hold-count API; record-set model: one record per accepted undelegation leg, nothing lost/overwritten, release exactly in the EndBlock of the first height >= completion height with hold 0 (holds released by the dogfood pending list of that block), credit == recorded payout, aggregates == sum of live records, acceptance of any amount within the position; non-trivial = >=2 records alive at once AND >=1 record released AND >=1 record held at its completion height",
 		Assumptions: ledgerAssumptions,
 		QuickRuns:   700, ThoroughRuns: 12000,
 		GenConfig: ledgerConfig,
-		GenPlan: ledgerPlan(LedgerGenOpts{DirectSlashes: true, DowntimeBursts: true, Evidence: true, EpochJumps: true, Restarts: true, NonceCollisions: true, MultiOperatorMsgs: true,
+		GenPlan: ledgerPlan(LedgerGenOpts{SecondHolder: true, DirectSlashes: true, DowntimeBursts: true, Evidence: true, EpochJumps: true, Restarts: true, NonceCollisions: true, MultiOperatorMsgs: true,
 			W: map[string]int{"dep": 6, "wd": 3, "del": 10, "und": 14, "assoc": 1, "dissoc": 1, "ndel": 5, "nund": 7, "optin": 3, "optout": 2, "setkey": 2, "unjail": 1}}),
 		Monitors: func() []Monitor { return []Monitor{&c03Monitor{}} },
 		NonTrivial: func(r *Run) bool {
